@@ -1008,10 +1008,11 @@ impl FontCase {
                             .enumerate()
                             .filter_map(|(a, iv)| {
                                 iv.map(|(lo, hi)| {
+                                    // a condition needs at least one bound (designspaceLib rejects one without)
                                     let open = self.flavour == Flavour::Mapped;
                                     (
                                         AXIS_NAMES[a].1.to_string(),
-                                        (!(open && lo == -1.0)).then(|| design_of(lo)),
+                                        (!(open && lo == -1.0 && hi != 1.0)).then(|| design_of(lo)),
                                         (!(open && hi == 1.0)).then(|| design_of(hi)),
                                     )
                                 })
